@@ -374,9 +374,11 @@ def run(repo: Repo) -> Result:
         res.undecide("C06.R1", parse_key, f"no reconstructed pattern matches a documented line as a whole (unmodelled: {(interp.lost_patterns or interp.unknown)[:3]})", parse_where)
         return res
     res.analysed["group_roles"] = {lp.key(): {str(g): sorted(r) for g, r in lp.roles.items()} for lp in lps}
+    conflict: set[str] = set()
     for lp in lps:
         for g, rs in lp.roles.items():
             if len(rs) > 1:
+                conflict |= rs
                 res.undecide("C06.R1", f"{lp.key()}::group {g}", f"group `{g}` binds different sides in different documented forms ({sorted(rs)}); the direction logic is not recognised", lp.where())
     decl_lps = [lp for lp in lps if lp.groups("name")]
     dep_lps = [lp for lp in lps if lp.groups("tail") or lp.groups("head")]
@@ -396,6 +398,8 @@ def run(repo: Repo) -> Result:
     for line, name, alias in decl_forms:
         got, arrows = decl_records(line), dep_records(line)
         k += 1
+        if conflict & {"name", "alias"}:
+            continue
         construct = f"{anchor_decl.key()}::form `{line}`"
         if ambiguous(got):
             res.undecide("C06.R1", construct, f"several name groups bind different texts in one match: {got}", anchor_decl.where())
@@ -411,6 +415,8 @@ def run(repo: Repo) -> Result:
     for line, tail, head in dep_forms:
         got, decls = dep_records(line), decl_records(line)
         k += 1
+        if conflict & {"tail", "head"}:
+            continue
         construct = f"{anchor_dep.key()}::form `{line}`"
         if ambiguous(got):
             res.undecide("C06.R1", construct, f"several groups of one side bind different texts in one match: {got}", anchor_dep.where())
